@@ -21,11 +21,14 @@ def Op.verifies : Op → Option Peer
 
 namespace Graph
 
+/-- in-place `addresses.update` on the stored peer of key `k` -/
+def updateStored (g : Graph) (k : Key) (new : List (Nat × Addr)) : Graph :=
+  { g with verified := g.verified.map
+            (fun q => if q.key = k then { q with addrs := updateAddrs q.addrs new } else q) }
+
 def addVerified (g : Graph) (p : Peer) : Graph :=
   if p.key ∈ g.blMid then g
-  else if p.key ∈ g.keys then
-    { g with verified := g.verified.map
-              (fun q => if q.key = p.key then { q with addrs := updateAddrs q.addrs p.addrs } else q) }
+  else if p.key ∈ g.keys then g.updateStored p.key p.addrs
   else if p.addrList.any (fun a => g.knownAddr a) then { g with verified := g.verified ++ [p] }
   else if p.addrList.all (fun a => !decide (a ∈ g.blAddr)) then
     { g with allAddr := addMissing g.allAddr p.addrList, verified := g.verified ++ [p] }
@@ -65,6 +68,7 @@ def step (g : Graph) : Op → Graph
   | .blAddr a => { g with blAddr := g.blAddr ++ [a] }
   | .blMid k => { g with blMid := g.blMid ++ [k] }
   | .load d => g.loadSnapshot d
+  | .setAddr k slot a => g.updateStored k [(slot, a)]
   | _ => g
 
 def run (g : Graph) (ops : List Op) : Graph := ops.foldl step g
@@ -83,14 +87,15 @@ def AnsAddr (g : Graph) (a : Addr) (r : Option Peer) : Prop :=
   | some p => p ∈ g.verified ∧ a ∈ p.addrList
   | none => ∀ p ∈ g.verified, a ∉ p.addrList
 
-/-- peers per service: exactly the verified peers that advertised it -/
+/-- peers per service: exactly the verified peers that advertised it, each once -/
 def AnsService (g : Graph) (sv : Svc) (r : List Peer) : Prop :=
-  ∀ p, p ∈ r ↔ p ∈ g.verified ∧ sv ∈ g.servicesOf p.key
+  r.Nodup ∧ ∀ p, p ∈ r ↔ p ∈ g.verified ∧ sv ∈ g.servicesOf p.key
 
 /-- walkable addresses: known addresses not used by a verified peer (of the service); with a service also: reached
     through that service or introduced by a peer advertising it, and not new-style when old-style is requested -/
 def AnsWalk (g : Graph) (svc : Option Svc) (oldStyle : Bool) (r : List Addr) : Prop :=
-  match svc with
+  r.Nodup ∧
+  match truthy svc with
   | none => ∀ a, a ∈ r ↔ a ∈ akeys g.allAddr ∧ ∀ p ∈ g.verified, a ∉ p.addrList
   | some sv => ∀ a, a ∈ r ↔
       (∀ p ∈ g.verified, sv ∈ g.servicesOf p.key → a ∉ p.addrList) ∧
@@ -99,7 +104,7 @@ def AnsWalk (g : Graph) (svc : Option Svc) (oldStyle : Bool) (r : List Addr) : P
 
 /-- introductions: exactly the known addresses whose introducer is that key -/
 def AnsIntro (g : Graph) (k : Key) (r : List Addr) : Prop :=
-  ∀ a, a ∈ r ↔ ∃ w, (a, w) ∈ g.allAddr ∧ w.intro = some k
+  r.Nodup ∧ ∀ a, a ∈ r ↔ ∃ w, (a, w) ∈ g.allAddr ∧ w.intro = some k
 
 end Graph
 end Ipv8.C12
